@@ -666,8 +666,17 @@ zgsisx(superlu_options_t *options, SuperMatrix *A, int *perm_c, int *perm_r,
 	}
     }
 
+    if ( *info > A->ncol ) {
+	/* memory allocation failed in the factorization: there are no factors */
+	if ( nofact ) Destroy_CompCol_Permuted(&AC);
+	if ( A->Stype == SLU_NR ) {
+	    Destroy_SuperMatrix_Store(AA);
+	    SUPERLU_FREE(AA);
+	}
+	return;
+    }
+
     if ( options->PivotGrowth ) {
-	if ( *info > 0 ) return;
 
 	/* Compute the reciprocal pivot growth factor *recip_pivot_growth. */
 	*recip_pivot_growth = zPivotGrowth(A->ncol, AA, perm_c, L, U);
